@@ -225,7 +225,27 @@ def write_pixels_shape(F, S):
         bytes_t = F.call_value(IH + "::CalcPixelByteWidth", None, (P(fn, 4), P(fn, 2)))
         a0r = resolve(a0, defs)
         alt = a0r[0] == "op" and a0r[1] == "+" and a0r[2][0] == "call" and a0r[2][1].endswith("::data") and a0r[2][2] == pix and a0r[3] == ("op", "*", y, pitch_t)
-        if a0r != ("un", "&", ("idx", pix, ("op", "*", y, pitch_t))) and not alt:
+        walking = False
+        a0t = fn.term(wr[0]["args"][0])
+        if a0t[0] == "var" and a0t != pix:
+            # a pointer that walks the buffer: starts at pixels.data() before the loop, is advanced by the pitch once per
+            # iteration after the row was written, and is stored to nowhere else; the loop counts the rows down from height
+            from ..rules_stream import is_store
+            init = None
+            for nd0 in fn.nodes:
+                if nd0["k"] == "DeclStmt" and nd0["id"] < loops[0]["id"]:
+                    for d0 in nd0.get("decls", []):
+                        if ("var", d0.get("n"), d0.get("d")) == a0t and "init" in d0:
+                            init = fn.term(d0["init"])
+            starts = init is not None and ((init[0] == "call" and init[1].endswith("::data") and init[2] == pix) or
+                                           init == ("un", "&", ("idx", pix, ("const", 0))))
+            sts = [nd0 for nd0 in fn.nodes if is_store(nd0) and fn.term(fn.kids(nd0["id"])[0]) == a0t]
+            steps = len(sts) == 1 and sts[0].get("op") == "+=" and sts[0]["id"] in body and sts[0]["id"] > wr[0]["id"] and \
+                resolve(fn.term(fn.kids(sts[0]["id"])[1]), defs) == pitch_t
+            walking = bool(starts and steps)
+            if not walking:
+                probs.append("row source %s is not a pointer walking the pixel buffer by the pitch" % fmt_term(a0t))
+        elif a0r != ("un", "&", ("idx", pix, ("op", "*", y, pitch_t))) and not alt:
             probs.append("row source is %s" % fmt_term(a0r))
         if a1 != bytes_t:
             probs.append("row length is %s" % fmt_term(a1))
@@ -234,7 +254,14 @@ def write_pixels_shape(F, S):
         if not (pd and pd[0] == "ctor" and len(pd[2]) >= 2 and resolve(pd[2][0], defs) == ("op", "-", pitch_t, bytes_t) and pd[2][1] == ("const", 0)):
             probs.append("padding buffer is %s" % (fmt_term(pd) if pd else fmt_term(padv)))
         cond = resolve(fn.term(loops[0]["cond"]), {})
-        if not (cond[0] == "op" and cond[1] == "<" and cond[2] == y):
+        if walking:
+            # `for (r = height; r > 0; --r)`: |rows| iterations for a positive height, none otherwise - as the counting-up loop
+            yi = fn.term(d["init"]) if "init" in d else None
+            inc = fn.n(loops[0]["inc"]) if "inc" in loops[0] else {}
+            down = inc.get("k") == "UnaryOperator" and inc.get("op") == "--" and fn.term(fn.kids(inc["id"])[0]) == y
+            if not (yi == P(fn, 3) and down and cond in (("op", ">", y, ("const", 0)), ("op", "<", ("const", 0), y))):
+                probs.append("loop %s from %s does not count the rows down from the height" % (fmt_term(cond), fmt_term(yi) if yi else "?"))
+        elif not (cond[0] == "op" and cond[1] == "<" and cond[2] == y):
             probs.append("loop bound %s" % fmt_term(cond))
     if probs:
         out.append(bad("R-SEQ", inst, fn.loc(loops[0]["id"]), fn.qn, req, "; ".join(probs)))
